@@ -457,6 +457,10 @@ def run(ctx: Context) -> None:
                     and flow.canon(s_core.value) == ('attr', ('param', 'self'), 'grid_shape') and isinstance(d_core, ast.Subscript):
                 # the convention's own shape of the same kind (R01.2 ties grid_shape to grid_dimensions, kind by kind and in order)
                 ok_s = flow.canon(s_core.slice) == flow.canon(d_core.slice)
+            from_shape = ok_s and isinstance(s_core, ast.Subscript) and flow.canon(s_core.value) == ('attr', ('param', 'self'), 'grid_shape')
+            ctx.check('R03.1', from_shape, "the sizes are the convention's own grid_shape of that kind, not a lookup in dataset.sizes: a mesh may name an edge dimension that no variable "
+                      "is defined on (the topology derives its length; select_variables produces such datasets) and winding edge data must still work", fi, call,
+                      construct=f"sizes={norm_text(flow.resolve(sizes))}")
             ctx.check('R03.1', ok_s, "sizes = [dataset.sizes[d] for d in <the same dimensions>] in order, or the convention's grid_shape of the same kind", fi, call,
                       construct=f"sizes={norm_text(flow.resolve(sizes))}")
             ctx.check('R03.1', flow.canon(call.args[0] if call.args else kwarg(call, 'data_array')) == ('param', da),
@@ -508,7 +512,8 @@ VARIANTS = [
     V('C03', 'merged-length-one-dimension-short', 'src/emsarray/utils.py', "    linear_size = int(numpy.prod(data_array.shape[-len(dimensions):]))", "    linear_size = int(numpy.prod(data_array.shape[-len(dimensions) + 1:]))", 'R03.1'),
     V('C03', 'sizes-reversed', _B, "        sizes = list(self.grid_shape[grid_kind])", "        sizes = list(reversed(self.grid_shape[grid_kind]))", 'R03.1'),
     V('C03', 'sizes-of-default-kind', _B, "        sizes = list(self.grid_shape[grid_kind])", "        sizes = list(self.grid_shape[self.default_grid_kind])", 'R03.1'),
-    V('C03', 'benign-sizes-from-dataset', _B, "        sizes = list(self.grid_shape[grid_kind])", "        sizes = [self.dataset.sizes[dim] for dim in dimensions]", None),
+    V('C03', 'sizes-looked-up-in-the-dataset', _B, "        sizes = list(self.grid_shape[grid_kind])", "        sizes = [self.dataset.sizes[dim] for dim in dimensions]", 'R03.1'),
+    V('C03', 'benign-sizes-as-tuple', _B, "        sizes = list(self.grid_shape[grid_kind])", "        sizes = tuple(self.grid_shape[grid_kind])", None),
     V('C03', 'wind-default-first-dim', _B, "            linear_dimension = data_array.dims[-1]", "            linear_dimension = data_array.dims[0]", 'R03.5'),
     V('C03', 'wind-name-beats-axis', _B, "        if axis is not None:\n            linear_dimension = data_array.dims[axis]\n        elif linear_dimension is None:", "        if axis is not None and linear_dimension is None:\n            linear_dimension = data_array.dims[axis]\n        elif linear_dimension is None:", 'R03.5'),
     V('C03', 'grid-kind-falls-back', _B, "        raise ValueError(\"Unknown grid kind\")", "        return self.default_grid_kind", 'R03.4'),
